@@ -228,21 +228,89 @@ def _append_indicator(prop, res, repo):
 
 
 def _append_hexital(prop, res, repo):
+    """Hexital.append: every manager is handed all of the given candles, unconditionally, and then every indicator resumes through
+    calculate() (the resume scan finds what is missing; nothing else does)"""
     rule = "R-ORDER"
     hp = repo.method("hexital.core.hexital", "Hexital", "append")
     fn = hp.node
-    loops = [n for n in fn.body if isinstance(n, ast.For)]
-    good = False
-    if loops and ast.unparse(loops[0].iter) == "self._candles.values()":
-        lv = ast.unparse(loops[0].target)
-        inner = [call_target(c) for c in calls_in(loops[0])]
-        after = [call_target(c) for st in fn.body[fn.body.index(loops[0]) + 1 :] for c in calls_in(st)]
-        conditional = any(isinstance(n, (ast.If, ast.Continue, ast.Break)) for n in ast.walk(loops[0]))
-        good = f"{lv}.append" in inner and "self.calculate" in after and not conditional
-    if good:
-        res.ok(rule, {"site": hp.where, "order": "every manager.append(candles) -> self.calculate()"}, nontrivial="Hexital.append")
-    else:
+    param = next((p for p in hp.params if p != "self"), "candles")
+    loops = [n for n in fn.body if isinstance(n, ast.For) and ast.unparse(n.iter) in ("self._candles.values()", "self._candles.items()")]
+    if not loops:
         res.fail(rule, finding(prop, rule, hp, fn, "Hexital.append must append to every candle manager unconditionally and then calculate", construct="Hexital.append fan-out"))
+        return
+    loop = loops[0]
+    lv = ast.unparse(loop.target).split(",")[-1].strip(" ()")
+    feeds = [c for c in calls_in(loop) if call_target(c) == f"{lv}.append"]
+    conditional = any(isinstance(n, (ast.If, ast.Continue, ast.Break, ast.IfExp)) for n in ast.walk(loop))
+    after = fn.body[fn.body.index(loop) + 1 :]
+    before = fn.body[: fn.body.index(loop)]
+    good = len(feeds) == 1 and not conditional and len(feeds[0].args) + len(feeds[0].keywords) == 1
+    if not good:
+        res.fail(rule, finding(prop, rule, hp, fn, "Hexital.append must append to every candle manager unconditionally and then calculate", construct="Hexital.append fan-out"))
+        return
+    # ---- what is handed to the managers: the parameter, or a re-encoding of all of it
+    arg = feeds[0].args[0] if feeds[0].args else feeds[0].keywords[0].value
+    defs = {}
+    for st in before:
+        for n in ast.walk(st):
+            if isinstance(n, ast.Assign):
+                for t in n.targets:
+                    if isinstance(t, ast.Name):
+                        defs.setdefault(t.id, []).append(n.value)
+    seen, todo, exprs = set(), [arg], []
+    while todo:
+        e = todo.pop()
+        exprs.append(e)
+        for n in ast.walk(e):
+            if isinstance(n, ast.Name) and n.id != param and n.id in defs and n.id not in seen:
+                seen.add(n.id)
+                todo.extend(defs[n.id])
+    CONVERT = {"from_dict", "from_dicts", "from_list", "from_lists", "list", "tuple", "isinstance", "Candle", "len", "type"}
+    witness, unknown = None, None
+    for e in exprs:
+        for n in ast.walk(e):
+            if isinstance(n, (ast.ListComp, ast.GeneratorExp, ast.SetComp)) and any(g.ifs for g in n.generators):
+                witness = witness or (n, "a filtering comprehension")
+            elif isinstance(n, ast.Call) and call_name(n) in ("filter", "takewhile", "dropwhile", "islice"):
+                witness = witness or (n, f"{call_name(n)}(...)")
+            elif isinstance(n, ast.Subscript) and isinstance(n.slice, ast.Slice):
+                witness = witness or (n, "a slice")
+            elif isinstance(n, ast.Call) and call_name(n) not in CONVERT:
+                unknown = unknown or n
+    if witness is not None:
+        res.fail(rule, finding(prop, rule, hp, witness[0], f"Hexital.append hands the managers only part of the given candles ({witness[1]}): what is dropped depends on the state of one manager (e.g. the default manager's collapsed labels), so members no longer see the stream a standalone indicator sees"))
+    elif unknown is not None:
+        res.errors.append(f"{hp.where}: what Hexital.append hands to the managers goes through `{norm_construct(unknown)[:70]}`: cannot decide that every given candle reaches every manager")
+    else:
+        res.ok(rule, {"site": hp.where, "feeds": f"every manager.append({ast.unparse(arg)[:40]}): the given candles, complete"}, nontrivial="Hexital.append:feed")
+    # ---- early exits before the fan-out: only for an empty input
+    for st in before:
+        for n in ast.walk(st):
+            if isinstance(n, ast.If) and any(isinstance(x, ast.Return) for x in ast.walk(n)):
+                t = n.test
+                while isinstance(t, ast.UnaryOp) and isinstance(t.op, ast.Not):
+                    t = t.operand
+                names = {x.id for x in ast.walk(t) if isinstance(x, ast.Name)}
+                if not (names and names <= (seen | {param, "len"}) and not any(isinstance(x, ast.Attribute) for x in ast.walk(t))):
+                    res.errors.append(f"{hp.where}: Hexital.append returns early under `{ast.unparse(n.test)[:60]}`: cannot decide that nothing is left unappended")
+    # ---- afterwards: every indicator resumes through calculate()
+    ok_paths, n_paths = True, 0
+    for p in stmt_paths(after):
+        if not normal_exit(p):
+            continue
+        n_paths += 1
+        calls = path_calls(p)
+        names = [call_target(c) for c in calls]
+        other = [c for c in calls if call_name(c) in ("calculate_index", "recalculate", "purge", "_calculate_reading", "_set_reading")]
+        calc = [c for c in calls if call_target(c) == "self.calculate" and not c.args and not c.keywords]
+        if other:
+            ok_paths = False
+            res.fail(rule, finding(prop, rule, hp, other[0], f"after an append Hexital.append drives an indicator with {call_name(other[0])}() instead of calculate(): only calculate() resumes from the first candle without a reading, so candles that lost theirs (purge, a late helper) are never filled in again"))
+        elif not calc:
+            ok_paths = False
+            res.fail(rule, finding(prop, rule, hp, fn, "Hexital.append must append to every candle manager unconditionally and then calculate", construct="Hexital.append: " + " -> ".join(names)))
+    if ok_paths and n_paths:
+        res.ok(rule, {"site": hp.where, "order": "every manager.append(candles) -> self.calculate()"}, nontrivial="Hexital.append")
 
 
 def _append_manager(prop, res, repo):
@@ -445,7 +513,23 @@ def check_round_by(prop: str, res: Result, repo: Repo):
         rv = [c for c in calls_in(m.node) if call_name(c) == "round_values"]
         good = rv and all(any(k.arg == "round_by" and ast.unparse(k.value) == "self.round_value" for k in c.keywords) or (len(c.args) == 2 and ast.unparse(c.args[1]) == "self.round_value") for c in rv)
         stores = [c for c in calls_in(m.node) if call_name(c) == "_set_reading"]
-        wrapped = all(any(c2 in list(ast.walk(st)) for c2 in rv) or isinstance(st.args[0], ast.Name) for st in stores) if stores else False
+        defs = {}
+        for n in ast.walk(m.node):
+            if isinstance(n, ast.Assign) and len(n.targets) == 1 and isinstance(n.targets[0], ast.Name):
+                defs.setdefault(n.targets[0].id, []).append(n.value)
+
+        def rounded(e, depth=0) -> bool:
+            """the stored value is a round_values(...) result on every arm (a conditional with an unrounded arm is not)"""
+            if isinstance(e, ast.Call) and call_name(e) == "round_values":
+                return True
+            if isinstance(e, ast.IfExp):
+                return rounded(e.body, depth) and rounded(e.orelse, depth)
+            if isinstance(e, ast.Name) and depth < 4 and e.id in defs:
+                return all(rounded(v, depth + 1) for v in defs[e.id])
+            return False
+
+        st0 = repo.method("hexital.core.indicator", "Indicator", "_set_reading")
+        wrapped = all(arg_of(st, st0, 0) is not None and rounded(arg_of(st, st0, 0)) for st in stores) if stores else False
         if good and wrapped:
             res.ok(rule, {"site": m.where, "round_by": "self.round_value"}, nontrivial=f"{drv}:round_by")
         else:
